@@ -2,6 +2,7 @@
   C08 — conversions among graph, stabilizer and density-matrix forms preserve the state.
 -/
 import GraphiqModel.Proofs.Convert
+import GraphiqModel.Proofs.StateToGraph
 namespace Graphiq.C08
 open Graphiq Graphiq.PRow Graphiq.Tab Graphiq.STab
 
@@ -30,9 +31,74 @@ theorem state_to_graph_validator_sound (t : STab) (gates : List Gate) (adj : Nat
   have s := checkConversion_sound t gates adj h
   exact ⟨s.n_eq, fun p => ⟨s.sub p, s.sup p⟩⟩
 
+/-! ### the modelled `state_to_graph` / `stabilizer_to_graph` (Model/StateToGraph.lean) -/
+
+/-- an in-range single-qubit gate passes the bounds test of the validator -/
+theorem wf_inBounds (n : Nat) (g : Gate) (h : g.WF n) : g.inBounds n = true := by
+  cases g <;> simp_all [Gate.WF, Gate.inBounds]
+
+/-- **`state_to_graph` is sound** (every n, every input tableau, every candidate GF(2) inverse `inv` — whatever the floating-point
+    `det · inv % 2` of `_graph_finder` evaluates to): whenever the modelled `state_to_graph` returns `(graph, gates)`, the graph is
+    simple, the gates are in range, and running them on the input tableau gives a tableau that generates exactly — signs
+    included — the signed group of the graph state.  This is the conclusion of `state_to_graph_validator_sound`, now as a theorem
+    about the modelled code (`row_reduction`, `_position_finder`, `hadamard_transform`, the two closing assertions of
+    `_graph_finder`, `canonical_form`, `_phase_correction`), not a per-output check.
+    Hypothesis `hreal`: the rows carry no i-phase — `StabilizerTableau` has no such field (the model's `ip` is constantly `false`). -/
+theorem state_to_graph_sound (inv : Nat → Adj → Option Adj) (t : STab)
+    (hreal : ∀ i, i < t.n → (t.row i).ip = false) (adj : BMat) (gates : List Gate)
+    (h : S2G.stateToGraphWith inv t = .ok (adj, gates)) :
+    ((t.runCircuit gates).n = t.n ∧ ∀ p, (t.runCircuit gates).Spn p ↔ (graphSTab t.n adj.f).Spn p) ∧
+    gates.all (Gate.inBounds t.n) = true ∧
+    (∀ i j, i < t.n → j < t.n → adj.f i j = adj.f j i) ∧ (∀ i, i < t.n → adj.f i i = false) := by
+  obtain ⟨wf, s, hsym, hirr⟩ := stateToGraphWith_sound inv t hreal adj gates h
+  refine ⟨⟨s.n_eq, fun p => ⟨s.sub p, s.sup p⟩⟩, ?_, hsym, hirr⟩
+  rw [List.all_eq_true]
+  exact fun g hg => wf_inBounds t.n g (wf g hg)
+
+/-- the instance for the executable model (exact GF(2) elimination), which is the one compared with the Python on every input -/
+theorem state_to_graph_exact_sound (t : STab) (hreal : ∀ i, i < t.n → (t.row i).ip = false) (adj : BMat)
+    (gates : List Gate) (h : S2G.stateToGraph t = .ok (adj, gates)) :
+    (t.runCircuit gates).n = t.n ∧ ∀ p, (t.runCircuit gates).Spn p ↔ (graphSTab t.n adj.f).Spn p :=
+  (state_to_graph_sound S2G.gf2InvF t hreal adj gates h).1
+
+/-- **`stabilizer_to_graph(validate=True)` is sound** (every n, every input): a returned graph is simple and its graph state is
+    the input state (same signed group) -/
+theorem stabilizer_to_graph_sound (t : STab) (hreal : ∀ i, i < t.n → (t.row i).ip = false) (adj : BMat)
+    (h : S2G.stabilizerToGraph t = .ok adj) :
+    (∀ p, t.Spn p ↔ (graphSTab t.n adj.f).Spn p) ∧
+    (∀ i j, i < t.n → j < t.n → adj.f i j = adj.f j i) ∧ (∀ i, i < t.n → adj.f i i = false) := by
+  obtain ⟨s, hsym, hirr⟩ := stabilizerToGraph_sound t hreal adj h
+  exact ⟨fun p => ⟨s.sub p, s.sup p⟩, hsym, hirr⟩
+
+/-- a returned result means the input was a valid stabilizer state (real, mutually commuting generators): the conversion never
+    "succeeds" on a table that is not a state -/
+theorem state_to_graph_input_is_state (inv : Nat → Adj → Option Adj) (t : STab)
+    (hreal : ∀ i, i < t.n → (t.row i).ip = false) (r : BMat × List Gate)
+    (h : S2G.stateToGraphWith inv t = .ok r) : t.Good := by
+  unfold S2G.stateToGraphWith at h
+  split at h
+  · cases h
+  · next g hg => exact (afterLC_of_spec t hreal g (S2G.graphFinderWith_spec inv _ g hg)).good
+
+/-- non-vacuity: the Bell state `⟨XX, −ZZ⟩` is converted (one Hadamard, one sign-fixing `Z`) to the graph `0 – 1` -/
+def bellMinus : STab :=
+  { n := 2, row := fun i => if i = 0 then ⟨fun j => decide (j < 2), fun _ => false, false, false⟩
+                            else ⟨fun _ => false, fun j => decide (j < 2), true, false⟩ }
+example : ∀ i, i < bellMinus.n → (bellMinus.row i).ip = false := by
+  intro i _; show (if i = 0 then _ else _ : PRow).ip = false; split <;> rfl
+set_option maxRecDepth 100000 in
+example : (match S2G.stateToGraph bellMinus with
+    | .ok (adj, gates) => adj.bits == "0110" && gates == [Gate.H 1, Gate.Z 1]
+    | .error _ => false) = true := by decide +kernel
+/-- and the known finding D40 is part of the model: the one-qubit `|0⟩` is rejected (`_position_finder` proposes no Hadamard) -/
+example : (match S2G.stateToGraph (STab.zero 1) with | .ok _ => false | .error e => e == Err.assertion) = true := by
+  decide +kernel
+
 /- Not theorems of this development (kept visible): (1) `state_to_graph` succeeds on every stabilizer state — false on the current
-   code (known finding D40: the Hadamard-position heuristic `_position_finder` fails, e.g. on the one-qubit |0⟩); (2) the
-   density-matrix side (negativity-based edge detection, float `det·inv` GF(2) inverses) — compared numerically per input. -/
+   code (known finding D40: the Hadamard-position heuristic `_position_finder` fails, e.g. on the one-qubit |0⟩, refuted above;
+   known finding D49: the float determinant is truncated); (2) the density-matrix side (negativity-based edge detection) —
+   compared numerically per input; (3) that the Python's float `det·inv % 2` equals the exact GF(2) inverse — not needed for
+   soundness (`state_to_graph_sound` quantifies over every candidate inverse), compared per input by the harness. -/
 
 /-! ### Non-vacuity: the triangle graph through both constructions -/
 def tri : Nat → Nat → Bool := fun i j => i != j && i < 3 && j < 3
